@@ -664,6 +664,7 @@ def rule_r3(ctx) -> List[R.Inst]:
             insts.append(R.undec("C01.R3", key, file, rfn.node.lineno, f"slot {idx} is not read"))
             continue
         bad = []
+        off_by_one = []
         for sb in subs:
             cur, guarded = sb, False
             while id(cur) in parents:
@@ -671,6 +672,16 @@ def rule_r3(ctx) -> List[R.Inst]:
                 if isinstance(cur, (ast.IfExp, ast.If)) and any(isinstance(x, ast.Call) and call_name(x) == "len" and x.args and
                                                                 unparse(x.args[0]) == sb.value.id for x in ast.walk(cur.test)):
                     guarded = True
+                    # the bound of the test: with exactly `idx` fields (the optional one absent) the branch that indexes it must not
+                    # run, with idx + 1 fields it must (a comparison of len() with literals: its truth at the two lengths; A7)
+                    in_body = any(x is sb for b_ in (cur.body if isinstance(cur.body, list) else [cur.body]) for x in ast.walk(b_))
+                    at = [_len_test_truth(cur.test, sb.value.id, n_) for n_ in (idx, idx + 1)]
+                    if None not in at:
+                        taken = [a if in_body else not a for a in at]
+                        if taken[0]:
+                            off_by_one.append((sb, cur.test, "absent"))
+                        elif not taken[1]:
+                            off_by_one.append((sb, cur.test, "present"))
                     break
                 # the same test spelled as the truth of the tail slice: `fields[4:]` is empty exactly when there is no field 4
                 if isinstance(cur, (ast.IfExp, ast.If)) and any(
@@ -692,7 +703,15 @@ def rule_r3(ctx) -> List[R.Inst]:
                                     f"{dflt} are lost", construct=f"{name}: {fld} omitted unless {unparse(wconds[0])}"))
             else:
                 insts.append(R.ok("C01.R3", key + ":writer", file, wconds[0].lineno, idiom=f"omitted only when it equals the format default {dflt}"))
-        if bad:
+        if off_by_one and not bad:
+            sb, t_, which = off_by_one[0]
+            insts.append(R.viol("C01.R3", key, file, t_.lineno,
+                                (f"the length test '{unparse(t_)}' lets '{unparse(sb)}' be read from a {name} line that has only {idx} fields "
+                                 f"(the optional '{fld}' absent): IndexError, the whole file is unreadable" if which == "absent" else
+                                 f"the length test '{unparse(t_)}' skips '{unparse(sb)}' on a {name} line that HAS the optional field '{fld}': "
+                                 f"its value is replaced by the default {dflt}"),
+                                construct=f"{name}: {unparse(sb)} under '{unparse(t_)}'"))
+        elif bad:
             insts.append(R.viol("C01.R3", key, file, bad[0].lineno,
                                 f"field {idx} ('{fld}') of a {name} line is optional in the format (default {dflt}); '{unparse(bad[0])}' is read "
                                 f"unconditionally, so a line without it makes the whole file unreadable",
@@ -700,6 +719,25 @@ def rule_r3(ctx) -> List[R.Inst]:
         else:
             insts.append(R.ok("C01.R3", key, file, subs[0].lineno, idiom=f"slot {idx} read under a length test (default {dflt})"))
     return insts
+
+
+def _len_test_truth(test: ast.AST, seq: str, n: int):
+    """truth of a test that consults only len(<seq>) and literals, at len(<seq>) == n; None when it consults anything else"""
+    import copy as _copy
+
+    class S(ast.NodeTransformer):
+        def visit_Call(self, c):
+            if call_name(c) == "len" and len(c.args) == 1 and unparse(c.args[0]) == seq:
+                return ast.copy_location(ast.Constant(value=n), c)
+            return c
+    t = S().visit(_copy.deepcopy(test))
+    if any(not isinstance(x, (ast.Compare, ast.BoolOp, ast.UnaryOp, ast.Constant, ast.And, ast.Or, ast.Not, ast.USub, ast.cmpop, ast.BinOp, ast.Add, ast.Sub,
+                              ast.expr_context)) for x in ast.walk(t)):
+        return None
+    try:
+        return bool(eval(compile(ast.fix_missing_locations(ast.Expression(body=t)), "<len-test>", "eval"), {"__builtins__": {}}, {}))
+    except Exception:
+        return None
 
 
 # --------------------------------------------------------------------------- R4
